@@ -46,14 +46,26 @@ SDL = world.sdl(0).replace("echoInt(v: Int): Int", "echoInt(v: Int): Int whoami:
 from tartiflette import Scalar  # noqa: E402
 for _n in ("c15", "c15_fresh"):
     Scalar("My", schema_name=_n)(world.MyScalar)
-ENG = build(SDL, "c15", custom_default_resolver=cresolver)                 # default lru cache: the parsed documents are shared between requests
-FRESH = build(SDL, "c15_fresh", custom_default_resolver=cresolver, query_cache_decorator=None)
+async def annotating_coercer(exception, error):
+    """the shape of the documented example: the coercer annotates the error (in place) — here it counts how often THIS error dict
+    has been through a coercer, which must always be once"""
+    ext = error.get("extensions")
+    if ext is not None:
+        ext["coerced_times"] = ext.get("coerced_times", 0) + 1
+    else:
+        error["extensions"] = {"coerced_times": 1}
+    return error
+
+
+ENG = build(SDL, "c15", custom_default_resolver=cresolver, error_coercer=annotating_coercer)   # default lru cache: the parsed documents (and their validation errors) are shared between requests
+FRESH = build(SDL, "c15_fresh", custom_default_resolver=cresolver, query_cache_decorator=None, error_coercer=annotating_coercer)
 POOL = [
     ("query A($v: Int) { echoInt(v: $v) whoami n }", [("echoInt",), ("n",)]),
     ("query B($s: Boolean!) { mid { n ...F } whoami } fragment F on Mid { leaf @skip(if: $s) { n } }", [("mid",), ("mid", "n")]),
     ("query C($s: Boolean!) { mids { ... on Mid { leaves @include(if: $s) { n } } n } nn }", [("mids",), ("nn",)]),
     ("{ mid { leaf { n } } nn whoami }", [("mid", "leaf", "n"), ("nn",)]),
     ("query A($v: Int) { echoInt(v: $v) } query B { whoami }", [("echoInt",), ("whoami",)]),
+    ("{ nope whoami }", []),                                   # refused by validation: the errors live with the cached document
 ]
 LEAF = {"n": 3}
 MID = {"n": 2, "leaf": LEAF, "leaves": [LEAF, {"n": 4}]}
@@ -64,14 +76,16 @@ def request(i, doc, v, s, fault, opsel, ng=2):
     q, gates = POOL[doc]
     gates = gates[-ng:]
     faults = {}
-    if fault:
+    if fault and gates:
         faults[gates[-1]] = fault
     ctx = {"id": "r%d" % i, "gates": set(gates), "faults": faults}
     variables = {"v": v, "s": s}
     op = None
     if doc == 4:
         op = "A" if opsel else "B"
-    if doc in (0, 4):
+    if doc == 5:
+        variables = {}
+    elif doc in (0, 4):
         variables = {"v": v}
     elif doc in (1, 2):
         variables = {"s": s}
@@ -104,13 +118,13 @@ def is_f7(faults):
     return sum(1 for f in faults if f == 3) >= 2
 
 
-PAIRS = [(0, 0), (1, 1), (2, 2), (0, 3), (4, 4), (1, 3), (2, 1), (3, 3)]     # (3, 3): byte-identical requests that differ only by their context
+PAIRS = [(0, 0), (1, 1), (2, 2), (0, 3), (4, 4), (1, 3), (2, 1), (3, 3), (5, 5), (5, 0)]     # (3, 3): byte-identical requests that differ only by their context
 TRIPLES = [(0, 0, 3), (1, 1, 1), (4, 0, 1)]
 
 
 FAULTS = [(0, 0), (1, 0), (2, 1), (0, 2), (3, 0), (3, 3)]
 SH15 = [{"docs": list(p), "f": list(f), "ng": ng} for ng in (1, 2) for p in PAIRS for f in FAULTS] + [{"docs": list(t), "f": list(f), "ng": 1} for t in TRIPLES for f in FAULTS[:3]]
-QUICK15 = [i for i, s in enumerate(SH15) if s["ng"] == 1 and len(s["docs"]) == 2 and ((s["f"] == [0, 0] and s["docs"] in ([0, 0], [1, 1], [2, 2], [4, 4], [0, 3], [3, 3])) or (s["docs"] == [0, 3] and s["f"] in ([2, 1], [3, 3])) or (s["docs"] == [1, 3] and s["f"] == [1, 0]))]
+QUICK15 = [i for i, s in enumerate(SH15) if s["ng"] == 1 and len(s["docs"]) == 2 and ((s["f"] == [0, 0] and s["docs"] in ([0, 0], [1, 1], [2, 2], [4, 4], [0, 3], [3, 3], [5, 5], [5, 0])) or (s["docs"] == [0, 3] and s["f"] in ([2, 1], [3, 3])) or (s["docs"] == [1, 3] and s["f"] == [1, 0]))]
 
 
 @obligation(tier="quick", timeout=300, thorough_timeout=1500, shards=SH15, quick_shards=QUICK15,
